@@ -142,7 +142,14 @@ func derefPtr(t reflect.Type, v reflect.Value) (reflect.Type, reflect.Value, ref
 	for {
 		if isPtr(t) {
 			t = t.Elem()
-			v = v.Elem()
+			if v.IsValid() {
+				if v.IsNil() {
+					// typed nil pointer: nothing to dereference
+					v = reflect.Value{}
+				} else {
+					v = v.Elem()
+				}
+			}
 			continue
 		}
 		break
